@@ -3,13 +3,13 @@ module verifharness
 go 1.21
 
 require (
+	github.com/opentracing/opentracing-go v1.1.0
 	github.com/uber/tchannel-go v0.0.0
 	golang.org/x/net v0.14.0
 )
 
 require (
 	github.com/davecgh/go-spew v1.1.1 // indirect
-	github.com/opentracing/opentracing-go v1.1.0 // indirect
 	github.com/pmezard/go-difflib v1.0.0 // indirect
 	github.com/stretchr/testify v1.5.1 // indirect
 	go.uber.org/atomic v1.6.0 // indirect
